@@ -47,6 +47,7 @@ type input struct {
 	corpus   bool
 	maxSteps uint64
 	feats    []string
+	noGuard  bool // fixed heavy programs: known to be bounded, and large enough to trip the memory guard
 	patch    bool // string literals "@@NU8:<hex>" stand for the (non-UTF-8) bytes <hex>: compile via FileProgram
 }
 
@@ -284,11 +285,35 @@ func check1(c *driver.Ctx, r *rand.Rand, in *input) {
 	}
 	c.Count("programs", 1)
 
+	// An execution cancelled by the memory guard (see record.go) excludes the case from every
+	// behavioural comparison; the byte comparisons, which do not execute anything, still count.
+	excluded := false
+	exec := func(p *starlark.Program) *record {
+		if excluded {
+			return nil
+		}
+		rec := execute(p, in.corpus, in.maxSteps, !in.noGuard)
+		c.Count("executions", 1)
+		if rec.guard {
+			excluded = true
+			c.Count("excluded_by_memory_guard", 1)
+			c.Count("excluded_by_memory_guard_"+in.family, 1)
+			if debug {
+				dbg("C17 memory guard fired: case %d %s/%s len=%d\n", c.Case(), in.family, in.name, len(in.src))
+			}
+			c.Cover("outcome", "excluded-memory-guard")
+			rec = nil
+			runtime.GC()
+			debugpkg.FreeOSMemory()
+		}
+		return rec
+	}
+
 	// Either write first and run later, or run the original first: the encoder must not depend on it.
 	var r1 *record
 	runFirst := r.Intn(2) == 0
 	if runFirst {
-		r1 = execute(p1, in.corpus, in.maxSteps)
+		r1 = exec(p1)
 	}
 	b1, werr, pn := write(p1)
 	if pn != nil || werr != nil {
@@ -312,75 +337,90 @@ func check1(c *driver.Ctx, r *rand.Rand, in *input) {
 	c.Count("bytes_compared", 1)
 	c.Count("bytes_total", len(b1))
 	var vios []diff
+	add := func(d diff) {
+		if len(vios) == 0 || strings.HasPrefix(vios[0].key, "bytes differ") {
+			vios = append(vios, d)
+		}
+	}
 	if !bytes.Equal(b1, b2) {
 		sec := diffSection(b1, b2, info)
 		vios = append(vios, diff{"bytes differ after round trip: section " + sec, fmt.Sprintf("len %d vs %d, first difference in section %s", len(b1), len(b2), sec)})
 	}
-	if !runFirst {
-		r1 = execute(p1, in.corpus, in.maxSteps)
-	}
-	r2 := execute(p2, in.corpus, in.maxSteps)
-	c.Count("executions", 2)
-	ds := compare(r1, r2)
-	c.Count("records_compared", 1)
-	c.Count("events_compared", len(r1.events))
-	c.Count("functions_compared", len(r1.funcs))
-	c.Count("frames_compared", len(r1.frames))
-	vios = append(vios, ds...)
-
-	// the decoded program is as reusable as the original
-	r2b := execute(p2, in.corpus, in.maxSteps)
-	c.Count("executions", 1)
-	c.Count("records_compared", 1)
-	if d2 := compare(r1, r2b); len(d2) > 0 && len(ds) == 0 {
-		vios = append(vios, diff{"second execution of the decoded program differs: " + d2[0].key, d2[0].what})
-	}
-
 	// decode(encode(decode(encode(P)))) is stable
 	p3, derr, pn := decode(b2)
 	if pn != nil || derr != nil || p3 == nil {
-		if len(vios) == 0 {
-			vios = append(vios, diff{"CompiledProgram rejects the bytes written by a decoded program", fmt.Sprintf("err=%v panic=%v", derr, pn)})
-		}
+		add(diff{"CompiledProgram rejects the bytes written by a decoded program", fmt.Sprintf("err=%v panic=%v", derr, pn)})
+		p3 = nil
 	} else {
 		b3, werr, pn := write(p3)
 		c.Count("bytes_compared", 1)
 		if pn != nil || werr != nil || !bytes.Equal(b3, b1) {
-			if len(vios) == 0 {
-				vios = append(vios, diff{"bytes differ after second round trip", fmt.Sprintf("err=%v panic=%v len %d vs %d", werr, pn, len(b3), len(b1))})
-			}
+			add(diff{"bytes differ after second round trip", fmt.Sprintf("err=%v panic=%v len %d vs %d", werr, pn, len(b3), len(b1))})
 		}
-		if r.Intn(3) == 0 {
-			r3 := execute(p3, in.corpus, in.maxSteps)
-			c.Count("executions", 1)
+	}
+
+	if !runFirst {
+		r1 = exec(p1)
+	}
+	r2 := exec(p2)
+	var ds []diff
+	if !excluded {
+		ds = compare(r1, r2)
+		c.Count("records_compared", 1)
+		c.Count("events_compared", len(r1.events))
+		c.Count("functions_compared", len(r1.funcs))
+		c.Count("frames_compared", len(r1.frames))
+		vios = append(vios, ds...)
+	}
+	// the decoded program is as reusable as the original
+	if r2b := exec(p2); !excluded {
+		c.Count("records_compared", 1)
+		if d2 := compare(r1, r2b); len(d2) > 0 && len(ds) == 0 {
+			vios = append(vios, diff{"second execution of the decoded program differs: " + d2[0].key, d2[0].what})
+		}
+	}
+	if p3 != nil && r.Intn(3) == 0 {
+		if r3 := exec(p3); !excluded {
 			c.Count("records_compared", 1)
-			if d3 := compare(r1, r3); len(d3) > 0 && len(vios) == 0 {
+			if d3 := compare(r1, r3); len(d3) > 0 && len(ds) == 0 {
 				vios = append(vios, diff{"twice-decoded program differs: " + d3[0].key, d3[0].what})
 			}
 		}
 	}
 
-	c.Cover("outcome", r1.outcome)
-	c.Count("outcome_"+r1.outcome, 1)
-	if r1.outcome == "dynamic" || r1.outcome == "steplimit" {
-		c.Count("backtraces_compared", 1)
-		c.Count("backtrace_frames_compared", strings.Count(r1.err, "\n  frame "))
-	}
-	if r1.panic != "" {
-		c.Count("execution_panics_original", 1)
-	}
-	if len(r1.events) > 0 || r1.nfuncs > 0 {
-		c.Distinct(optStr + "\x00" + in.filename + "\x00" + in.src)
-	} else {
-		c.Count("trivial_programs", 1)
-	}
 	for _, f := range in.feats {
 		c.Cover("features", f)
 	}
-	if c.WantSample() && (r.Intn(40) == 0 || !sampled) {
-		sampled = true
-		c.Sample(map[string]any{"family": in.family, "recipe": in.name, "options": optStr, "source": driver.Truncate(in.src, 1500),
-			"encoded_bytes": len(b1), "events": len(r1.events), "functions": r1.nfuncs, "outcome": r1.outcome, "error": driver.Truncate(r1.err, 400)})
+	if excluded {
+		// nothing about the behaviour may be reported; byte differences still are
+		var keep []diff
+		for _, d := range vios {
+			if strings.HasPrefix(d.key, "bytes differ") || strings.HasPrefix(d.key, "CompiledProgram rejects") {
+				keep = append(keep, d)
+			}
+		}
+		vios = keep
+		r1, r2 = &record{outcome: "excluded"}, &record{}
+	} else {
+		c.Cover("outcome", r1.outcome)
+		c.Count("outcome_"+r1.outcome, 1)
+		if r1.outcome == "dynamic" || r1.outcome == "steplimit" {
+			c.Count("backtraces_compared", 1)
+			c.Count("backtrace_frames_compared", strings.Count(r1.err, "\n  frame "))
+		}
+		if r1.panic != "" {
+			c.Count("execution_panics_original", 1)
+		}
+		if len(r1.events) > 0 || r1.nfuncs > 0 {
+			c.Distinct(optStr + "\x00" + in.filename + "\x00" + in.src)
+		} else {
+			c.Count("trivial_programs", 1)
+		}
+		if c.WantSample() && (r.Intn(40) == 0 || !sampled) {
+			sampled = true
+			c.Sample(map[string]any{"family": in.family, "recipe": in.name, "options": optStr, "source": driver.Truncate(in.src, 1500),
+				"encoded_bytes": len(b1), "events": len(r1.events), "functions": r1.nfuncs, "outcome": r1.outcome, "error": driver.Truncate(r1.err, 400)})
+		}
 	}
 
 	if len(vios) > 0 {
